@@ -218,6 +218,7 @@ pub fn tier_spec(prop: &str, tier: &str) -> TierSpec {
         "C10" => (16_000, 250_000),
         "C11" => (8_000, 120_000),
         "C12" => (8_000, 120_000),
+        "C17" => (16_000, 250_000),
         "C14" => (480, 8_000),
         _ => (8_000, 120_000),
     };
@@ -493,6 +494,7 @@ fn expected_probes(prop: &str) -> Vec<&'static str> {
         "C13" => v.extend(["flush", "catalogue_checked", "column_searches", "sp:compact:start"]),
         "C15" => v.extend(["columns_read", "sp:load:before_read", "restart"]),
         "C18" => v.extend(["garbage_checked", "sp:compact:start"]),
+        "C17" => v.extend(["http_query:Query", "http_query:QueryCols", "http_query:MultiJson", "http_query:MultiBin", "http_query:MultiBinXor", "http_answers_equal_embedded", "http_failing_query_mapped", "prefix_queries_checked", "http_columns"]),
         _ => {}
     }
     v
